@@ -222,3 +222,7 @@ def run(ctx, rep):
                        'the output file is opened without truncation: stale bytes of a longer previous file survive and the JSON does not decode')
             else:
                 rep.ob('R19.7', f'output-truncated:{fn}', None, f'writer {show(w, maxd=3)[:80]}')
+    # C18 is a premise of this property (a value of a validated type is in range): its construction discipline is included
+    from . import shared, c18 as _c18
+    shared.include(ctx, rep, _c18.run, {'R18.1', 'R18.2', 'R18.3', 'R18.4', 'R18.5'}, why='out-of-range / non-numeric input is rejected by the type')
+
